@@ -135,8 +135,13 @@ def run(pm, ctx):
         pm.func(PT + '._class_declaration_for_type')
 
     def body_sig(f):
+        # assignments of constants to locals that are never read carry no meaning
+        loads = {x.id for x in own_nodes(f.node) if isinstance(x, ast.Name) and
+                 isinstance(x.ctx, ast.Load)}
         return sorted(unparse(n) for n in own_nodes(f.node)
-                      if isinstance(n, (ast.Assign, ast.Return)))
+                      if isinstance(n, (ast.Assign, ast.Return)) and not (
+                          isinstance(n, ast.Assign) and isinstance(n.value, ast.Constant) and
+                          all(isinstance(t, ast.Name) and t.id not in loads for t in n.targets)))
     ctx.check('C15-R1', body_sig(sc) == body_sig(rc),
               'class statement and base class are computed identically', sc.loc,
               msg='the stub and the runtime compute class statements differently',
